@@ -15,6 +15,7 @@ macro_rules! hmod {
 hmod!(sim, "sim.rs");
 hmod!(msg, "msg.rs");
 hmod!(c13_gateway, "c13_gateway.rs");
+hmod!(c15_seqjoin, "c15_seqjoin.rs");
 
 use sim::Scenario;
 
@@ -22,6 +23,8 @@ fn registry() -> Vec<&'static dyn Scenario> {
     let mut v: Vec<&'static dyn Scenario> = Vec::new();
     v.extend(crate::helpers::verif_h2::scenarios());
     v.extend(c13_gateway::scenarios());
+    v.extend(c15_seqjoin::scenarios());
+    v.extend(crate::protocol::context::verif_h3::scenarios());
     v
 }
 
